@@ -522,7 +522,57 @@ func shrinkDial(s core.Spec) []core.Spec {
 	return out
 }
 
+// C15, client half: replies that announce permessage-deflate with both, one or none of the
+// no-context-takeover parameters, in every arrangement
+func c15rGen(rng *rand.Rand, tier string) []core.Spec {
+	params := [][]string{
+		{}, {"server_no_context_takeover"}, {"client_no_context_takeover"},
+		{"server_no_context_takeover", "client_no_context_takeover"}, {"client_no_context_takeover", "server_no_context_takeover"},
+		{"server_no_context_takeover", "client_max_window_bits=15"}, {"client_no_context_takeover", "server_max_window_bits=10"},
+		{"server_no_context_takeover", "client_no_context_takeover", "client_max_window_bits=10"},
+		{"server_no_context_takeover", "server_no_context_takeover"}, {"client_max_window_bits"},
+	}
+	var out []core.Spec
+	for _, ps := range params {
+		ext := "permessage-deflate"
+		for _, p := range ps {
+			ext += core.Pick(rng, []string{"; ", ";", " ; "}) + p
+		}
+		for _, arrangement := range []int{0, 1, 2, 3, 4} {
+			var lines []B
+			switch arrangement {
+			case 0:
+				lines = []B{B(ext)}
+			case 1:
+				lines = []B{B("foo, " + ext)}
+			case 2:
+				lines = []B{B("bar; x=1"), B(ext)}
+			case 3:
+				lines = []B{B(ext + ", baz")}
+			default:
+				lines = []B{B(ext), B("permessage-deflate; server_no_context_takeover; client_no_context_takeover")}
+			}
+			for _, enabled := range []bool{true, false} {
+				rs := ReplySpec{Status: 101, Reason: "Switching Protocols"}
+				rs.Hdr = append(rs.Hdr, KV{K: B("Upgrade"), V: []B{B("websocket")}}, KV{K: B("Connection"), V: []B{B("Upgrade")}},
+					KV{K: B("Sec-WebSocket-Extensions"), V: lines})
+				out = append(out, &DialSpec{Prop: 22, URL: "ws://example.com/x", Compression: enabled, Reply: rs})
+			}
+		}
+	}
+	// and no extension header at all
+	for _, enabled := range []bool{true, false} {
+		rs := ReplySpec{Status: 101, Reason: "Switching Protocols"}
+		rs.Hdr = append(rs.Hdr, KV{K: B("Upgrade"), V: []B{B("websocket")}}, KV{K: B("Connection"), V: []B{B("Upgrade")}})
+		out = append(out, &DialSpec{Prop: 22, URL: "ws://example.com/x", Compression: enabled, Reply: rs})
+	}
+	return out
+}
+
 var dialClauses = map[int]string{
+	133: "Dial returned a connection although the 101 announced permessage-deflate without both no-context-takeover parameters",
+	134: "the 101 announced permessage-deflate with both parameters but the client does not use compression",
+	135: "the client uses compression although the 101 did not announce permessage-deflate",
 	120: "Dial returned a connection although the reply does not prove acceptance of this request (101 + Upgrade + Connection + Accept for this key)",
 	121: "a reply that proves acceptance (well-formed token lists) was refused with ErrBadHandshake",
 	122: "more than 1024 body bytes kept with ErrBadHandshake",
@@ -545,5 +595,15 @@ func init() {
 		Decode:  decodeDial,
 		Shrink:  shrinkDial,
 		Clauses: dialClauses,
+	})
+	core.Register(&core.Prop{
+		ID:         "C15r",
+		Rule:       "Dialer.Dial onto a scripted conn whose valid 101 reply carries Sec-WebSocket-Extensions lines announcing permessage-deflate with every subset/order of {server_no_context_takeover, client_no_context_takeover} plus window-bits parameters, alone, after another extension, on a second line, followed by another, or twice; Dialer.EnableCompression on and off (exhaustive over this matrix)",
+		Gen:        c15rGen,
+		Exec:       dialExec,
+		Decode:     decodeDial,
+		Shrink:     shrinkDial,
+		Clauses:    dialClauses,
+		Exhaustive: func(string) bool { return true },
 	})
 }
